@@ -301,4 +301,98 @@ def _summary(out):
     return lines[-1][:400] if lines else "failed"
 
 
+# --------------------------------------------------------------------------- Hypothesis / CLI
+def run_py(pid, tier, seed, replay=None):
+    P = PROPS[pid]
+    t0 = time.time()
+    bdir = ybuild.build_cli("asan")
+    work = tempfile.mkdtemp(prefix="verif-%s-" % pid, dir=os.path.join(VERIF, "build"))
+    script = os.path.join(VERIF, "lib", P["script"])
+    py = shutil.which("python3-vt") or "/opt/veriftools/pyvenv/bin/python3"
+    known = "\n".join(k["signature"] for k in open_known(pid))
+
+    def env_for(w, examples):
+        env = dict(os.environ)
+        env.update({"C18_YARA": os.path.join(bdir, "yara"), "C18_YARAC": os.path.join(bdir, "yarac"),
+                    "C18_OUT": os.path.join(work, "w%d.json" % w), "VERIF_SEED": str(seed * 100 + w), "VERIF_TIER": tier,
+                    "C18_EXAMPLES": str(examples), "C18_KNOWN": known, "VERIF_REPO": ybuild.REPO,
+                    "C18_FIXED": "1" if w == 0 else "0", "TMPDIR": work})
+        return env
+    try:
+        if replay:
+            p = subprocess.run([py, script, "--replay", replay], env=env_for(0, 1), stdout=subprocess.PIPE, stderr=subprocess.STDOUT)
+            out = p.stdout.decode(errors="replace")
+            sys.stdout.write(out)
+            if p.returncode != 0:
+                print("VIOLATION property=%s replay=%s" % (pid, replay))
+                return 1
+            return 0
+        nworkers, examples = P[tier]
+        procs = []
+        for w in range(nworkers):
+            lf = open(os.path.join(work, "w%d.log" % w), "wb")
+            procs.append((subprocess.Popen([py, script], env=env_for(w, examples), stdout=lf, stderr=subprocess.STDOUT), lf, w))
+        violations = []
+        tot = {"invocations": 0, "examples": 0, "nontrivial": 0, "classes": {}, "samples": [], "known": {}}
+        for p, lf, w in procs:
+            try:
+                p.wait(timeout=P.get("hard_limit", 1500))
+            except subprocess.TimeoutExpired:
+                p.kill()
+                p.wait()
+                log("worker %d killed after the hard limit (inconclusive)" % w)
+            lf.close()
+            of = os.path.join(work, "w%d.json" % w)
+            if not os.path.exists(of):
+                log("worker %d left no result (status %s):\n%s" % (w, p.returncode, open(os.path.join(work, "w%d.log" % w)).read()[-2000:]))
+                if p.returncode not in (0, 1):
+                    return 3
+                continue
+            d = json.load(open(of))
+            for k in ("invocations", "examples", "nontrivial"):
+                tot[k] += d[k]
+            for k, v in d["classes"].items():
+                tot["classes"][k] = tot["classes"].get(k, 0) + v
+            for k, v in d["known"].items():
+                tot["known"][k] = tot["known"].get(k, 0) + v
+            tot["samples"] += d["samples"][:2]
+            if d.get("failure"):
+                os.makedirs(os.path.join(FAIL, pid), exist_ok=True)
+                blob = json.dumps({"case": d["failure"]["case"], "message": d["failure"]["msg"]}, indent=1)
+                dst = os.path.join(FAIL, pid, hashlib.sha256(blob.encode()).hexdigest()[:12] + ".json")
+                open(dst, "w").write(blob)
+                # confirm through the plain replay path, three times
+                ok = 0
+                for _ in range(3):
+                    r = subprocess.run([py, script, "--replay", dst], env=env_for(0, 1), stdout=subprocess.PIPE, stderr=subprocess.STDOUT)
+                    ok += r.returncode != 0
+                if ok == 3:
+                    violations.append((dst, d["failure"]["msg"][:600]))
+                else:
+                    log("failure of worker %d reproduced %d/3 times only - dropped as schedule-dependent noise: %s" % (w, ok, d["failure"]["msg"][:300]))
+        listed = {k["signature"]: k for k in open_known(pid)}
+        for sig, cnt in sorted(tot["known"].items()):
+            if sig in listed:
+                print("KNOWN-FINDING: property=%s %s [signature %s, seen %d times]" % (pid, listed[sig]["what"], sig, cnt))
+        wall = time.time() - t0
+        cov = {"evaluations": tot["invocations"], "distinct_nontrivial": tot["nontrivial"], "rule": P["rule"],
+               "samples": tot["samples"][:8] or ["(none)"], "generated_cases": tot["examples"], "classes": tot["classes"],
+               "known_findings_hit": tot["known"], "engine": "Hypothesis (python3-vt) driving the yara / yarac binaries as subprocesses"}
+        write_evidence(pid, tier, seed, wall, cov, len(violations), P.get("assumptions", []))
+        log("%s %s: %d yara/yarac invocations over %d generated trees, %d non-trivial, %.1fs, classes=%s" % (
+            pid, tier, tot["invocations"], tot["examples"], tot["nontrivial"], wall, json.dumps(tot["classes"], sort_keys=True)))
+        if violations:
+            for path, msg in violations[:3]:
+                print("VIOLATION property=%s replay=%s" % (pid, path))
+                log("  " + msg)
+            return 1
+        if tot["nontrivial"] < P.get("floor", 2):
+            log("generator health: only %d non-trivial cases" % tot["nontrivial"])
+            return 3
+        return 0
+    finally:
+        shutil.rmtree(work, ignore_errors=True)
+
+
 driver.register_engine("fuzz", run_fuzz)
+driver.register_engine("py", run_py)
